@@ -31,6 +31,11 @@ func (rs *requestStream) Read(p []byte) (int, error) {
 		if rs.chunkLeft == 0 {
 			chunkSize, err := parseChunkSize(rs.reader)
 			if err != nil {
+				if err == io.EOF {
+					// The stream ended where a chunk header (or the last
+					// chunk) was due: the body is truncated, not complete.
+					err = io.ErrUnexpectedEOF
+				}
 				return 0, err
 			}
 			if chunkSize == 0 {
